@@ -37,6 +37,8 @@ type RawRevision struct {
 	// object starts with a delimiter ("(", "[", "<"): /First is the offset of the first object, nothing requires
 	// white space in front of it (§7.5.7).
 	TightHead bool `json:"tight_head,omitempty"`
+	// TightTail: the data of the object stream end with the last byte of the last object (no end-of-line behind it)
+	TightTail bool `json:"tight_tail,omitempty"`
 }
 
 // WriteRaw writes the revisions as one file. root is the catalog's object number; size the /Size value.
@@ -128,7 +130,11 @@ func WriteRawOrdered(revs []RawRevision, root NRef, size int, eol string, order 
 			if rv.TightHead && data.Len() > 0 && strings.IndexByte("([<", data.Bytes()[0]) >= 0 {
 				hb = hb[:len(hb)-1]
 			}
-			payload := append(append([]byte{}, hb...), data.Bytes()...)
+			db := data.Bytes()
+			if rv.TightTail && len(db) > 0 {
+				db = db[:len(db)-1]
+			}
+			payload := append(append([]byte{}, hb...), db...)
 			d := Dict{{"Type", Name("ObjStm")}, {"N", Int(len(members))}, {"First", Int(len(hb))}}
 			if rv.Flate {
 				payload = filt.Zlib(payload, 6)
